@@ -77,7 +77,7 @@ Example:
     #XXX: need better filter on inputs
     if getattr(arg, '__module__', None) != self.__module__:
       raise TypeError("'%s' object is not a condition" % arg.__class__.__name__)
-    if not getattr(arg, '__len__', None): arg = [arg]
+    if not getattr(arg, '__len__', None) or isinstance(arg, When): arg = [arg]
     return tuple.__new__(self, arg)
 
   def __call__(self, solver, info=False):
@@ -121,7 +121,7 @@ Example:
     """
     if isinstance(args, tuple) and len(args) == 1: args = args[0] # for pickling
     #XXX: need better filter on inputs
-    if not getattr(args, '__len__', None): args = [args]
+    if not getattr(args, '__len__', None) or isinstance(args, When): args = [args]
     #XXX: check if every arg in args has __module__ == self.__module__ ?
     return tuple.__new__(self, args)
 
@@ -145,7 +145,7 @@ Example:
     """
     if isinstance(args, tuple) and len(args) == 1: args = args[0] # for pickling
     #XXX: need better filter on inputs
-    if not getattr(args, '__len__', None): args = [args]
+    if not getattr(args, '__len__', None) or isinstance(args, When): args = [args]
     #XXX: check if every arg in args has __module__ == self.__module__ ?
     return tuple.__new__(self, args)
 
